@@ -45,9 +45,9 @@ type action struct {
 }
 
 type slotObs struct {
-	Act  action    `json:"act"`
-	Seen []string  `json:"seen"` // per workload: none | r,h
-	Note string    `json:"note,omitempty"`
+	Act  action   `json:"act"`
+	Seen []string `json:"seen"` // per workload: none | r,h
+	Note string   `json:"note,omitempty"`
 }
 
 type result struct {
@@ -195,8 +195,8 @@ func (x *world) stable() []string {
 	prev := x.statuses()
 	deadline := time.Now().Add(5 * time.Second)
 	for time.Now().Before(deadline) {
-		time.Sleep(120 * time.Millisecond)
-		x.quiet(150*time.Millisecond, 2*time.Second)
+		time.Sleep(70 * time.Millisecond)
+		x.quiet(100*time.Millisecond, 2*time.Second)
 		cur := x.statuses()
 		if strings.Join(cur, ";") == strings.Join(prev, ";") {
 			return cur
@@ -204,6 +204,19 @@ func (x *world) stable() []string {
 		prev = cur
 	}
 	return prev
+}
+
+// initDone waits until the init pass of wt's current session has examined all
+// nodes (reads grew by the number of nodes) and nothing is in flight.
+func (x *world) initDone(wt *watcher, readsBefore int) {
+	deadline := time.Now().Add(4 * time.Second)
+	for time.Now().Before(deadline) {
+		inflight, _, _, _, reads := wt.cw.snapshot()
+		if reads >= readsBefore+x.nnodes+1 && inflight == 0 {
+			return
+		}
+		time.Sleep(15 * time.Millisecond)
+	}
 }
 
 func (x *world) lockHolderExists() bool {
@@ -217,10 +230,10 @@ func (x *world) proveWatch(wt *watcher) bool {
 	for try := 0; try < 40; try++ {
 		before := wt.cw.setNodeCount(probeNode)
 		_ = x.w.C.SetNodeStatus(x.w.Ctx, probeNode, 600)
-		time.Sleep(30 * time.Millisecond)
+		time.Sleep(15 * time.Millisecond)
 		_ = x.w.C.SetNodeStatus(x.w.Ctx, probeNode, -1)
-		for i := 0; i < 12; i++ {
-			time.Sleep(25 * time.Millisecond)
+		for i := 0; i < 20; i++ {
+			time.Sleep(10 * time.Millisecond)
 			if wt.cw.setNodeCount(probeNode) > before {
 				return true
 			}
@@ -254,7 +267,8 @@ func (x *world) waitActive() string {
 				// (streams counts every session of this watcher; sessions are torn down
 				// before another watcher can register, so a new count means a live session)
 				if x.proveWatch(wt) {
-					x.quiet(200*time.Millisecond, 3*time.Second)
+					x.initDone(wt, 0)
+					x.quiet(100*time.Millisecond, 3*time.Second)
 					x.active = wt
 					return "active"
 				}
@@ -295,101 +309,155 @@ func runHistory(t *testing.T, name string, acts []action) (res result) {
 		}
 		return false
 	}
+	aliveNow := map[int]bool{}
 	for _, a := range acts {
 		note := ""
-		switch a.Kind {
-		case "addnode":
-			if err := w.AddNode(nodeName(a.Node), "p", 8, 1<<30); err != nil {
-				note = "err:" + err.Error()
-			}
-		case "heartbeat":
-			if err := w.C.SetNodeStatus(w.Ctx, nodeName(a.Node), 600); err != nil {
-				note = "err"
-			}
-		case "lapse":
-			if a.Revoke {
-				r, err := w.Etcd.Get(w.Ctx, "/status:node/"+nodeName(a.Node))
-				if err == nil && len(r.Kvs) == 1 && r.Kvs[0].Lease != 0 {
-					_, _ = w.Etcd.Revoke(w.Ctx, clientv3.LeaseID(r.Kvs[0].Lease))
+		func() {
+			switch a.Kind {
+			case "addnode":
+				if err := w.AddNode(nodeName(a.Node), "p", 8, 1<<30); err != nil {
+					note = "err:" + err.Error()
+				} else {
+					x.nnodes++
+					aliveNow[a.Node] = true
 				}
-			} else {
-				_ = w.C.SetNodeStatus(w.Ctx, nodeName(a.Node), -1)
-			}
-		case "create":
-			ch, err := w.C.CreateWorkload(w.Ctx, &types.DeployOptions{
-				Name: "app", Entrypoint: &types.Entrypoint{Name: "web"}, Podname: "p", Image: "img",
-				Count: 1, DeployStrategy: "AUTO", NodeFilter: &types.NodeFilter{Podname: "p", Includes: []string{nodeName(a.Node)}},
-				Resources: cw.CPUMem(0.1, 1000),
-			})
-			if err != nil {
-				note = "refused"
-			} else {
-				for m := range ch {
-					if m.Error != nil {
-						note = "refused"
-					} else {
-						x.ids = append(x.ids, m.WorkloadID)
-					}
-				}
-			}
-			w.Quiesce()
-		case "report":
-			if a.W < len(x.ids) {
-				ttls := map[string]int64{}
-				if a.TTL > 0 {
-					ttls[x.ids[a.W]] = a.TTL
-				}
-				if _, err := w.C.SetWorkloadsStatus(w.Ctx, []*types.StatusMeta{{ID: x.ids[a.W], Running: a.R, Healthy: a.H}}, ttls); err != nil {
+			case "heartbeat":
+				if err := w.C.SetNodeStatus(w.Ctx, nodeName(a.Node), 600); err != nil {
 					note = "err"
+				} else {
+					aliveNow[a.Node] = true
 				}
-			}
-		case "start", "startheld":
-			c := &clusterW{Cluster: w.C, setNodes: map[string]int{}, last: time.Now()}
-			wt := &watcher{cw: c, done: make(chan struct{}), held: a.Kind == "startheld"}
-			if wt.held {
-				c.hold, c.holdReach = make(chan struct{}), make(chan struct{})
-			}
-			ctx, cancel := context.WithCancel(w.Ctx)
-			wt.cancel = cancel
-			sm := selfmon.VerifNew(int64(len(x.watchers)), cfg, c, w.RawStore)
-			x.watchers = append(x.watchers, wt)
-			go func() { defer close(wt.done); sm.VerifRun(ctx) }()
-			if x.active == nil {
-				note = x.waitActive()
-			} else {
-				time.Sleep(150 * time.Millisecond)
-			}
-		case "release":
-			if a.K < len(x.watchers) && x.watchers[a.K].held {
-				wt := x.watchers[a.K]
-				close(wt.cw.hold)
-				wt.cw.mu.Lock()
-				wt.cw.hold = nil
-				wt.cw.mu.Unlock()
-				wt.held = false
-				if !wt.stopped {
-					select {
-					case <-wt.cw.holdReach:
-						// it was the active one: its stream opens now
-						deadline := time.Now().Add(3 * time.Second)
-						for time.Now().Before(deadline) {
-							if _, _, s, _, _ := wt.cw.snapshot(); s > 0 {
-								break
-							}
-							time.Sleep(20 * time.Millisecond)
-						}
-						if x.proveWatch(wt) {
-							note = "active"
-						} else {
-							note = "watch-not-proved"
-						}
-					default:
+			case "lapse":
+				expect := x.active != nil && !x.active.held && aliveNow[a.Node]
+				before := 0
+				if expect {
+					before = x.active.cw.setNodeCount(nodeName(a.Node))
+				}
+				delete(aliveNow, a.Node)
+				defer0 := func() {
+					if !expect {
+						return
+					}
+					// the active watcher is expected to run its handler for this node: wait for it (or 5 s)
+					deadline := time.Now().Add(5 * time.Second)
+					for time.Now().Before(deadline) && x.active.cw.setNodeCount(nodeName(a.Node)) <= before {
+						time.Sleep(10 * time.Millisecond)
 					}
 				}
-			}
-		case "stop":
-			if a.K < len(x.watchers) && !x.watchers[a.K].stopped {
-				wt := x.watchers[a.K]
+				defer defer0()
+				if a.Revoke {
+					r, err := w.Etcd.Get(w.Ctx, "/status:node/"+nodeName(a.Node))
+					if err == nil && len(r.Kvs) == 1 && r.Kvs[0].Lease != 0 {
+						_, _ = w.Etcd.Revoke(w.Ctx, clientv3.LeaseID(r.Kvs[0].Lease))
+					}
+				} else {
+					_ = w.C.SetNodeStatus(w.Ctx, nodeName(a.Node), -1)
+				}
+			case "create":
+				ch, err := w.C.CreateWorkload(w.Ctx, &types.DeployOptions{
+					Name: "app", Entrypoint: &types.Entrypoint{Name: "web"}, Podname: "p", Image: "img",
+					Count: 1, DeployStrategy: "AUTO", NodeFilter: &types.NodeFilter{Podname: "p", Includes: []string{nodeName(a.Node)}},
+					Resources: cw.CPUMem(0.1, 1000),
+				})
+				if err != nil {
+					note = "refused"
+				} else {
+					for m := range ch {
+						if m.Error != nil {
+							note = "refused"
+						} else {
+							x.ids = append(x.ids, m.WorkloadID)
+						}
+					}
+				}
+				w.Quiesce()
+			case "report":
+				if a.W < len(x.ids) {
+					ttls := map[string]int64{}
+					if a.TTL > 0 {
+						ttls[x.ids[a.W]] = a.TTL
+					}
+					if _, err := w.C.SetWorkloadsStatus(w.Ctx, []*types.StatusMeta{{ID: x.ids[a.W], Running: a.R, Healthy: a.H}}, ttls); err != nil {
+						note = "err"
+					}
+				}
+			case "start", "startheld":
+				c := &clusterW{Cluster: w.C, setNodes: map[string]int{}, last: time.Now()}
+				wt := &watcher{cw: c, done: make(chan struct{}), held: a.Kind == "startheld"}
+				if wt.held {
+					c.hold, c.holdReach = make(chan struct{}), make(chan struct{})
+				}
+				ctx, cancel := context.WithCancel(w.Ctx)
+				wt.cancel = cancel
+				sm := selfmon.VerifNew(int64(len(x.watchers)), cfg, c, w.RawStore)
+				x.watchers = append(x.watchers, wt)
+				go func() { defer close(wt.done); sm.VerifRun(ctx) }()
+				if x.active == nil {
+					note = x.waitActive()
+				} else {
+					time.Sleep(150 * time.Millisecond)
+				}
+			case "release":
+				if a.K < len(x.watchers) && x.watchers[a.K].held {
+					wt := x.watchers[a.K]
+					close(wt.cw.hold)
+					wt.cw.mu.Lock()
+					wt.cw.hold = nil
+					wt.cw.mu.Unlock()
+					wt.held = false
+					if !wt.stopped {
+						select {
+						case <-wt.cw.holdReach:
+							// it was the active one: its stream opens now
+							deadline := time.Now().Add(3 * time.Second)
+							for time.Now().Before(deadline) {
+								if _, _, s, _, _ := wt.cw.snapshot(); s > 0 {
+									break
+								}
+								time.Sleep(20 * time.Millisecond)
+							}
+							if x.proveWatch(wt) {
+								note = "active"
+							} else {
+								note = "watch-not-proved"
+							}
+						default:
+						}
+					}
+				}
+			case "stop":
+				if a.K < len(x.watchers) && !x.watchers[a.K].stopped {
+					wt := x.watchers[a.K]
+					for _, o := range x.watchers {
+						_, _, s, l, _ := o.cw.snapshot()
+						if o.held {
+							sessions[o] = l
+						} else {
+							sessions[o] = s
+						}
+					}
+					wt.cancel()
+					if wt.held {
+						select {
+						case <-wt.cw.hold:
+						default:
+							close(wt.cw.hold)
+						}
+					}
+					select {
+					case <-wt.done:
+					case <-time.After(5 * time.Second):
+						note = "stop-timeout"
+					}
+					wt.stopped = true
+					if x.active == wt {
+						x.active = nil
+						if expectTakeover() {
+							note += x.waitTakeover(sessions)
+						}
+					}
+				}
+			case "expire":
 				for _, o := range x.watchers {
 					_, _, s, l, _ := o.cw.snapshot()
 					if o.held {
@@ -398,47 +466,18 @@ func runHistory(t *testing.T, name string, acts []action) (res result) {
 						sessions[o] = s
 					}
 				}
-				wt.cancel()
-				if wt.held {
-					select {
-					case <-wt.cw.hold:
-					default:
-						close(wt.cw.hold)
-					}
-				}
-				select {
-				case <-wt.done:
-				case <-time.After(5 * time.Second):
-					note = "stop-timeout"
-				}
-				wt.stopped = true
-				if x.active == wt {
+				r, err := w.Etcd.Get(w.Ctx, selfmon.ActiveKey)
+				if err == nil && len(r.Kvs) == 1 && r.Kvs[0].Lease != 0 {
+					_, _ = w.Etcd.Revoke(w.Ctx, clientv3.LeaseID(r.Kvs[0].Lease))
 					x.active = nil
 					if expectTakeover() {
-						note += x.waitTakeover(sessions)
+						note = x.waitTakeover(sessions)
 					}
 				}
 			}
-		case "expire":
-			for _, o := range x.watchers {
-				_, _, s, l, _ := o.cw.snapshot()
-				if o.held {
-					sessions[o] = l
-				} else {
-					sessions[o] = s
-				}
-			}
-			r, err := w.Etcd.Get(w.Ctx, selfmon.ActiveKey)
-			if err == nil && len(r.Kvs) == 1 && r.Kvs[0].Lease != 0 {
-				_, _ = w.Etcd.Revoke(w.Ctx, clientv3.LeaseID(r.Kvs[0].Lease))
-				x.active = nil
-				if expectTakeover() {
-					note = x.waitTakeover(sessions)
-				}
-			}
-		}
-		time.Sleep(60 * time.Millisecond)
-		x.quiet(200*time.Millisecond, 4*time.Second)
+		}()
+		time.Sleep(30 * time.Millisecond)
+		x.quiet(120*time.Millisecond, 4*time.Second)
 		seen := x.stable()
 		res.Slots = append(res.Slots, slotObs{Act: a, Seen: seen, Note: note})
 	}
@@ -484,7 +523,7 @@ func (x *world) waitTakeover(sessions map[*watcher]int) string {
 				}
 			} else if streams > sessions[wt] && lists > 0 {
 				if x.proveWatch(wt) {
-					x.quiet(200*time.Millisecond, 3*time.Second)
+					x.quiet(150*time.Millisecond, 3*time.Second)
 					x.active = wt
 					return "takeover"
 				}
@@ -591,15 +630,15 @@ func lapseInStartWindow(acts []action) bool {
 
 // ---- generators ----
 
-func an(i int) action                 { return action{Kind: "addnode", Node: i} }
-func hb(i int) action                 { return action{Kind: "heartbeat", Node: i} }
-func lapse(i int) action              { return action{Kind: "lapse", Node: i} }
-func lapseRevoke(i int) action        { return action{Kind: "lapse", Node: i, Revoke: true} }
-func create(i int) action             { return action{Kind: "create", Node: i} }
-func report(w int, r, h bool) action  { return action{Kind: "report", W: w, R: r, H: h} }
+func an(i int) action                   { return action{Kind: "addnode", Node: i} }
+func hb(i int) action                   { return action{Kind: "heartbeat", Node: i} }
+func lapse(i int) action                { return action{Kind: "lapse", Node: i} }
+func lapseRevoke(i int) action          { return action{Kind: "lapse", Node: i, Revoke: true} }
+func create(i int) action               { return action{Kind: "create", Node: i} }
+func report(w int, r, h bool) action    { return action{Kind: "report", W: w, R: r, H: h} }
 func reportTTL(w int, r, h bool) action { return action{Kind: "report", W: w, R: r, H: h, TTL: 300} }
-func stop(k int) action               { return action{Kind: "stop", K: k} }
-func release(k int) action            { return action{Kind: "release", K: k} }
+func stop(k int) action                 { return action{Kind: "stop", K: k} }
+func release(k int) action              { return action{Kind: "release", K: k} }
 
 var start = action{Kind: "start"}
 var startHeld = action{Kind: "startheld"}
